@@ -67,6 +67,34 @@ def deriv_case(run, specs, t, gamma, pts, L, dt):
                    rep_of(specs, t, gamma, pts, case="deriv", orders=list(L), deriv_type=dt), "density-deriv")
 
 
+def held_results_case(run, specs, t, gamma, pts, dt):
+    """several results on the same grid are kept by the caller and compared only after all calls have been made (a caller sums
+    d2rho/dx2 + d2rho/dy2 + d2rho/dz2): every returned array must still hold its own values and no two of them may share memory"""
+    from gbasis.evals import density as D
+    basis = make_basis(specs)
+    dc = DerivCache(run, specs, pts, t)
+    orders = [(2, 0, 0), (0, 2, 0), (0, 0, 2), (1, 1, 0), (0, 0, 0)]
+    held = [D.evaluate_deriv_density(np.array(L), gamma, basis, pts, transform=t, deriv_type=dt) for L in orders]
+    held.append(D.evaluate_density_laplacian(gamma, basis, pts, transform=t, deriv_type=dt))
+    held.append(D.evaluate_density_gradient(gamma, basis, pts, transform=t, deriv_type=dt))
+    # a later request on a grid with the same number of points (other basis-independent arguments)
+    D.evaluate_deriv_density(np.array([1, 0, 1]), gamma, basis, pts + 0.125, transform=t, deriv_type=dt)
+    run.case(("held", dt) + sig(specs) + (t is not None,))
+    run.count("results held across later calls")
+    ok = True
+    for L, impl in zip(orders, held):
+        val, mag = leibniz(dc, gamma, L)
+        ok &= compare(run, "evaluate_deriv_density (result kept while later calls were made)", impl, val, 1e-9 * mag + 1e-300,
+                      rep_of(specs, t, gamma, pts, case="held", deriv_type=dt, orders=list(L)), "density-held")
+    for i in range(len(held)):
+        for j in range(i + 1, len(held)):
+            if np.shares_memory(held[i], held[j]):
+                run.violation("two results of separate density calls share memory",
+                              rep_of(specs, t, gamma, pts, case="held", deriv_type=dt, signature={"kind": "density-held-shared"}))
+                return False
+    return ok
+
+
 def fields_case(run, specs, t, gamma, pts, dt, psd, alpha):
     from gbasis.evals import density as D
     basis = make_basis(specs)
@@ -203,6 +231,26 @@ def check(run):
         fields_case(run, specs, t, gamma, pts, "general" if n % 2 else "direct", False, 0.25)
         deriv_case(run, specs, t, gamma, pts, (1, 0, 1) if n % 2 else (0, 0, 0), "general")
         run.count("zero-diagonal density matrix")
+    for n in range(2 if quick else 8):
+        specs, t, gamma, pts, psd = setup(rng, quick, lmax=2)
+        held_results_case(run, specs, t, gamma, pts, "general" if n % 2 else "direct")
+    # nearly trivial transformation matrices
+    from checks.common import near_identity_transforms
+    specs, t, gamma, pts, psd = setup(rng, quick, lmax=1 if quick else 2)
+    nb = sum(s_.size for s_ in specs)
+    for n, (lab, T) in enumerate(near_identity_transforms(rng, nb)):
+        gamma = random_symmetric(rng, nb, psd=bool(n % 2))
+        fields_case(run, specs, T, gamma, pts, "general" if n % 2 else "direct", bool(n % 2), 0.5)
+        deriv_case(run, specs, T, gamma, pts, (1, 0, 1), "direct")
+        run.count("transform " + lab)
+    # density matrices symmetric only up to rounding (transformed to another orbital basis and back)
+    from checks.common import rounding_noise_symmetric
+    for n in range(2 if quick else 8):
+        specs, t, gamma, pts, psd = setup(rng, quick, lmax=2)
+        noisy, exact = rounding_noise_symmetric(rng, gamma.shape[0], diagonal=(n % 2 == 0))
+        fields_case(run, specs, t, noisy, pts, "general" if n % 2 else "direct", n % 2 == 0, 0.5)
+        deriv_case(run, specs, t, noisy, pts, (1, 1, 0), "general")
+        run.count("density matrix symmetric up to rounding")
     # deliberately negative densities: clip boundary
     for n in range(3 if quick else 12):
         specs, t, gamma, pts, psd = setup(rng, quick, lmax=2)
@@ -215,6 +263,10 @@ def replay(run, rep):
     n0 = len(run.violations)
     specs = specs_from(rep)
     t = None if rep.get("transform") is None else np.array(rep["transform"])
+    if rep.get("case") == "held":
+        n0 = len(run.violations)
+        held_results_case(run, specs_from(rep), t, np.array(rep["gamma"]), np.array(rep["points"]), rep["deriv_type"])
+        return len(run.violations) == n0
     gamma, pts = np.array(rep["gamma"]), np.array(rep["points"])
     if rep.get("case") == "representation":
         representation_cases(run)
